@@ -287,3 +287,26 @@ Proof.
     + cbn in Hrun. inversion Hrun; subst. destruct (Hd Hdiff) as [Hne _].
       destruct coins; [congruence | discriminate].
 Qed.
+
+(* ---------- proportional: a deduction changes nothing but the staked totals ---------- *)
+(* an asset leaves a deduction with every field but the staked total as it was *)
+Theorem take_asset_touches_only_the_total t n a b x : take_asset t n a = Some (b, x) -> set_a_tokens (a_tokens a) b = a.
+Proof.
+  unfold take_asset. destruct (chargeable t a); [|intros H; inversion H; subst; apply set_tokens_same].
+  destruct (dpow (ONE - a_take a) n) as [m|]; [|discriminate].
+  destruct (dmul_int m (a_tokens a) <=? ONE); [intros H; inversion H; subst; apply set_tokens_same|].
+  destruct (a_tokens a - dtrunc (dmul_int m (a_tokens a)) <? 0); [discriminate|].
+  intros H; inversion H; subst. destruct a; reflexivity.
+Qed.
+
+(* delegation records and validator records (hence every position's shares and every validator's share of
+   the asset) are not touched: each position keeps its fraction of the asset, whose total alone shrinks *)
+Definition pos_proj (s : State) := (delegations s, valinfos s).
+Lemma deduct_keeps_positions x als : inv (fun s => pos_proj s = x) (deduct_assets_hook als).
+Proof. inv_deep (fun s s' (E : pos_proj s' = pos_proj s) (H : pos_proj s = x) => eq_trans E H). Qed.
+Theorem take_rate_keeps_every_position_and_share als s out s' :
+  deduct_assets_hook als s = Ok out s' -> delegations s' = delegations s /\ valinfos s' = valinfos s.
+Proof.
+  intros Hrun. pose proof (deduct_keeps_positions (pos_proj s) als s eq_refl) as H. rewrite Hrun in H.
+  unfold pos_proj in H. inversion H. auto.
+Qed.
